@@ -1,9 +1,264 @@
+/-
+  C13 — property theorems for the dispatch / nesting model (LpModel/C13.lean).
+  `I` is an ARBITRARY family of 1-D rules (Boost rules, the library's own rules): the theorems use
+  only that it is a function, plus the named hypotheses (homogeneity, exactness on constants).
+-/
 import LpModel.C13
+import Mathlib.Tactic.Ring
+import Mathlib.Tactic.Linarith
 namespace Lp.C13
 
-theorem integrate3Dsph_def (I : Integ) (MC : MCInteg) (sph : Rat → Rat → Rat → Vec3) (acos : Rat → Rat)
+/-! ## [T1] int1D_eq, int1D_swap -/
+
+/-- equal limits give zero for every method name (even an unknown one: the test comes first) -/
+theorem int1D_eq (I : Integ) (name : String) (p : Int) (f : Rat → Rat) (a : Rat) :
+    integrate1D I name p f a a = .ok 0 := by
+  simp [integrate1D]
+
+theorem int1_eq (I : Integ) (m : Method) (p : Int) (f : Rat → Rat) (a : Rat) : int1 I m p f a a = 0 := by
+  simp [int1]
+
+/-- ordered limits: the rule is called as is -/
+theorem int1_ordered (I : Integ) (m : Method) (p : Int) (f : Rat → Rat) (a b : Rat) (h : a < b) :
+    int1 I m p f a b = I m (effParam m p) f a b := by
+  have h1 : a ≠ b := ne_of_lt h
+  have h2 : ¬ (a > b) := not_lt.mpr (le_of_lt h)
+  simp [int1, checkLimits, h1, h2]
+
+/-- reversing the limits negates the result, for every method and every rule `I` -/
+theorem int1_swap (I : Integ) (m : Method) (p : Int) (f : Rat → Rat) (a b : Rat) :
+    int1 I m p f b a = - int1 I m p f a b := by
+  rcases lt_trichotomy a b with h | h | h
+  · have h1 : a ≠ b := ne_of_lt h
+    have h2 : ¬ (a > b) := not_lt.mpr (le_of_lt h)
+    have h3 : b ≠ a := fun e => h1 e.symm
+    simp [int1, checkLimits, h1, h2, h3, h]
+  · subst h; simp [int1]
+  · have h1 : a ≠ b := ne_of_gt h
+    have h2 : ¬ (b > a) := not_lt.mpr (le_of_lt h)
+    have h3 : b ≠ a := fun e => h1 e.symm
+    simp [int1, checkLimits, h1, h2, h3, h]
+
+theorem integrate1D_known (I : Integ) (name : String) (m : Method) (hm : parseMethod name = some m) (p : Int)
+    (f : Rat → Rat) (a b : Rat) : integrate1D I name p f a b = .ok (int1 I m p f a b) := by
+  by_cases h : a = b
+  · subst h; simp [integrate1D, int1]
+  · simp [integrate1D, h, hm]
+
+/-- **int1D_swap**: `Integrate(f,b,a,method,p) = -Integrate(f,a,b,method,p)` for every recognised method -/
+theorem int1D_swap (I : Integ) (name : String) (m : Method) (hm : parseMethod name = some m) (p : Int)
+    (f : Rat → Rat) (a b : Rat) :
+    integrate1D I name p f b a = .ok (- int1 I m p f a b) ∧ integrate1D I name p f a b = .ok (int1 I m p f a b) := by
+  rw [integrate1D_known I name m hm, integrate1D_known I name m hm, int1_swap]
+  exact ⟨rfl, rfl⟩
+
+example : parseMethod "Tanh-Sinh" = some .tanhSinh := by decide
+
+/-! ## [T1] unknown_method → diagnostic at every level -/
+
+theorem unknown_method_1D (I : Integ) (name : String) (h : parseMethod name = none) (p : Int) (f : Rat → Rat)
+    (a b : Rat) (hab : a ≠ b) : integrate1D I name p f a b = .error .diag := by
+  simp [integrate1D, hab, h]
+
+theorem unknown_method_2D (I : Integ) (MC : MCInteg) (name : String) (h : parseMethod name = none)
+    (h' : parseMC name = none) (p : Int) (f : Rat → Rat → Rat) (x1 x2 y1 y2 : Rat) :
+    integrate2D I MC name p f x1 x2 y1 y2 = .error .diag := by
+  simp [integrate2D, h, h']
+
+theorem unknown_method_3D (I : Integ) (MC : MCInteg) (name : String) (h : parseMethod name = none)
+    (h' : parseMC name = none) (p : Int) (f : Rat → Rat → Rat → Rat) (x1 x2 y1 y2 z1 z2 : Rat) :
+    integrate3D I MC name p f x1 x2 y1 y2 z1 z2 = .error .diag := by
+  simp [integrate3D, h, h']
+
+theorem unknown_method_sph (I : Integ) (MC : MCInteg) (sph : Rat → Rat → Rat → Vec3) (acos : Rat → Rat)
+    (name : String) (h : parseMethod name = none) (h' : parseMC name = none) (p : Int) (f : Vec3 → Rat)
+    (r1 r2 c1 c2 f1 f2 : Rat) :
+    integrate3Dsph I MC sph acos name p f r1 r2 c1 c2 f1 f2 = .error .diag := by
+  simp [integrate3Dsph, integrate3D, h, h']
+
+theorem unknown_method_MC (MC : MCInteg) (name : String) (h' : parseMC name = none) (g : List Rat → Rat)
+    (region : List Rat) (n : Int) : integrateMC MC name g region n = .error .diag := by
+  simp [integrateMC, h']
+
+example : parseMethod "gauss-legendre" = none ∧ parseMC "gauss-legendre" = none := by decide
+
+/-! ## [T1] nested_order -/
+
+/-- **nested_order (2-D)**: the outer rule runs over the first pair of limits with variable `x`, the
+    inner one over the second pair with variable `y`, and `f` receives `(x, y)` in this order. -/
+theorem nested_order_2D (I : Integ) (MC : MCInteg) (name : String) (m : Method) (hm : parseMethod name = some m)
+    (p : Int) (f : Rat → Rat → Rat) (x1 x2 y1 y2 : Rat) :
+    integrate2D I MC name p f x1 x2 y1 y2
+      = .ok (int1 I m p (fun x => int1 I m p (fun y => f x y) y1 y2) x1 x2) := by
+  simp [integrate2D, hm]
+
+/-- with ordered limits this is literally `I (λx. I (λy. f x y) y1 y2) x1 x2` -/
+theorem nested_order_2D_ordered (I : Integ) (MC : MCInteg) (name : String) (m : Method)
+    (hm : parseMethod name = some m) (p : Int) (f : Rat → Rat → Rat) (x1 x2 y1 y2 : Rat) (hx : x1 < x2) (hy : y1 < y2) :
+    integrate2D I MC name p f x1 x2 y1 y2
+      = .ok (I m (effParam m p) (fun x => I m (effParam m p) (fun y => f x y) y1 y2) x1 x2) := by
+  rw [nested_order_2D I MC name m hm, int1_ordered I m p _ x1 x2 hx]
+  congr 2
+  funext x
+  exact int1_ordered I m p _ y1 y2 hy
+
+theorem nested_order_3D (I : Integ) (MC : MCInteg) (name : String) (m : Method) (hm : parseMethod name = some m)
+    (p : Int) (f : Rat → Rat → Rat → Rat) (x1 x2 y1 y2 z1 z2 : Rat) :
+    integrate3D I MC name p f x1 x2 y1 y2 z1 z2
+      = .ok (int1 I m p (fun x => int1 I m p (fun y => int1 I m p (fun z => f x y z) z1 z2) y1 y2) x1 x2) := by
+  simp [integrate3D, hm]
+
+/-- reversing the limits of any one axis negates the nested result -/
+theorem nested_swap_inner (I : Integ) (MC : MCInteg) (name : String) (m : Method) (hm : parseMethod name = some m)
+    (p : Int) (f : Rat → Rat → Rat) (x1 x2 y1 y2 : Rat)
+    (hI : ∀ q g a b, I m q (fun x => - g x) a b = - I m q g a b) :
+    integrate2D I MC name p f x1 x2 y2 y1
+      = .ok (- int1 I m p (fun x => int1 I m p (fun y => f x y) y1 y2) x1 x2) := by
+  rw [nested_order_2D I MC name m hm]
+  congr 1
+  have e : (fun x => int1 I m p (fun y => f x y) y2 y1) = fun x => - int1 I m p (fun y => f x y) y1 y2 := by
+    funext x; exact int1_swap I m p _ y1 y2
+  rw [e]
+  unfold int1 checkLimits
+  by_cases h : x1 = x2
+  · simp [h]
+  · by_cases h2 : x1 > x2 <;> simp [h, h2, hI]
+
+/-! ## [T1] nested_separable -/
+
+/-- homogeneity of the rule: `I (c·g) = c·I g` (true of every rule with fixed nodes and of
+    relative-tolerance adaptive rules) -/
+def Homogeneous (I : Integ) : Prop := ∀ m q (c : Rat) (g : Rat → Rat) a b, I m q (fun x => c * g x) a b = c * I m q g a b
+
+theorem int1_homogeneous (I : Integ) (hI : Homogeneous I) (m : Method) (p : Int) (c : Rat) (g : Rat → Rat) (a b : Rat) :
+    int1 I m p (fun x => c * g x) a b = c * int1 I m p g a b := by
+  unfold int1 checkLimits
+  by_cases h : a = b
+  · simp [h]
+  · by_cases h2 : a > b <;> simp [h, h2, hI m] <;> ring
+
+/-- **nested_separable (2-D)**: for `f x y = g x * h y` the result is the product of the 1-D integrals -/
+theorem nested_separable_2D (I : Integ) (hI : Homogeneous I) (MC : MCInteg) (name : String) (m : Method)
+    (hm : parseMethod name = some m) (p : Int) (g h : Rat → Rat) (x1 x2 y1 y2 : Rat) :
+    integrate2D I MC name p (fun x y => g x * h y) x1 x2 y1 y2
+      = .ok (int1 I m p g x1 x2 * int1 I m p h y1 y2) := by
+  rw [nested_order_2D I MC name m hm]
+  congr 1
+  have e : (fun x => int1 I m p (fun y => g x * h y) y1 y2) = fun x => int1 I m p h y1 y2 * g x := by
+    funext x; rw [int1_homogeneous I hI]; ring
+  rw [e, int1_homogeneous I hI]; ring
+
+theorem nested_separable_3D (I : Integ) (hI : Homogeneous I) (MC : MCInteg) (name : String) (m : Method)
+    (hm : parseMethod name = some m) (p : Int) (g h k : Rat → Rat) (x1 x2 y1 y2 z1 z2 : Rat) :
+    integrate3D I MC name p (fun x y z => g x * h y * k z) x1 x2 y1 y2 z1 z2
+      = .ok (int1 I m p g x1 x2 * int1 I m p h y1 y2 * int1 I m p k z1 z2) := by
+  rw [nested_order_3D I MC name m hm]
+  congr 1
+  have e1 : ∀ x y, int1 I m p (fun z => g x * h y * k z) z1 z2 = (g x * h y) * int1 I m p k z1 z2 := by
+    intro x y; rw [int1_homogeneous I hI]
+  have e2 : ∀ x, int1 I m p (fun y => int1 I m p (fun z => g x * h y * k z) z1 z2) y1 y2
+      = g x * (int1 I m p k z1 z2 * int1 I m p h y1 y2) := by
+    intro x
+    have : (fun y => int1 I m p (fun z => g x * h y * k z) z1 z2) = fun y => (g x * int1 I m p k z1 z2) * h y := by
+      funext y; rw [e1]; ring
+    rw [this, int1_homogeneous I hI]; ring
+  have e3 : (fun x => int1 I m p (fun y => int1 I m p (fun z => g x * h y * k z) z1 z2) y1 y2)
+      = fun x => (int1 I m p k z1 z2 * int1 I m p h y1 y2) * g x := by
+    funext x; rw [e2]; ring
+  rw [e3, int1_homogeneous I hI]; ring
+
+/-- a homogeneous rule exists: a fixed-node rule -/
+example : Homogeneous (fun _ _ f a b => (b - a) * f ((a + b) / 2)) := by
+  intro m q c g a b; ring
+
+/-! ## [T1] mc_region_layout -/
+
+/-- **mc_region_layout**: the Monte-Carlo front ends hand over `region = {lower…, upper…}`
+    (`region[i]`, `region[i+d]` the lower/upper limit of axis `i`), `ncalls` defaulting to 30000, and an
+    integrand that passes `args[i]` to the `i`-th argument of `f`. -/
+theorem mc_region_layout_2D (I : Integ) (MC : MCInteg) (name : String) (mc : MCMethod)
+    (h : parseMethod name = none) (h' : parseMC name = some mc) (p : Int) (f : Rat → Rat → Rat) (x1 x2 y1 y2 : Rat) :
+    ∃ (g : List Rat → Rat) (region : List Rat),
+      integrate2D I MC name p f x1 x2 y1 y2 = .ok (MC mc g region (if p = 0 then 30000 else p)) ∧
+      region.length = 2 * 2 ∧
+      region.getD 0 0 = x1 ∧ region.getD (0 + 2) 0 = x2 ∧ region.getD 1 0 = y1 ∧ region.getD (1 + 2) 0 = y2 ∧
+      ∀ x y, g [x, y] = f x y := by
+  refine ⟨fun args => f (args.getD 0 0) (args.getD 1 0), [x1, y1, x2, y2], ?_, rfl, rfl, rfl, rfl, rfl, ?_⟩
+  · simp [integrate2D, h, h', ncallsOf]
+  · intro x y; rfl
+
+theorem mc_region_layout_3D (I : Integ) (MC : MCInteg) (name : String) (mc : MCMethod)
+    (h : parseMethod name = none) (h' : parseMC name = some mc) (p : Int) (f : Rat → Rat → Rat → Rat)
+    (x1 x2 y1 y2 z1 z2 : Rat) :
+    ∃ (g : List Rat → Rat) (region : List Rat),
+      integrate3D I MC name p f x1 x2 y1 y2 z1 z2 = .ok (MC mc g region (if p = 0 then 30000 else p)) ∧
+      region.length = 2 * 3 ∧
+      region.getD 0 0 = x1 ∧ region.getD (0 + 3) 0 = x2 ∧ region.getD 1 0 = y1 ∧ region.getD (1 + 3) 0 = y2 ∧
+      region.getD 2 0 = z1 ∧ region.getD (2 + 3) 0 = z2 ∧
+      ∀ x y z, g [x, y, z] = f x y z := by
+  refine ⟨fun args => f (args.getD 0 0) (args.getD 1 0) (args.getD 2 0), [x1, y1, z1, x2, y2, z2], ?_,
+    rfl, rfl, rfl, rfl, rfl, rfl, rfl, ?_⟩
+  · simp [integrate3D, h, h', ncallsOf]
+  · intro x y z; rfl
+
+example : parseMethod "Vegas" = none ∧ parseMC "Vegas" = some .vegas := by decide
+
+/-! ## [T1] spherical_wrapper -/
+
+/-- **spherical_wrapper**: the spherical overload is the Cartesian one on `(r, cosθ, φ) ↦ r²·f(v)` with
+    `v = Spherical_Coordinates(r, acos(cosθ), φ)`, the three pairs of limits in this order. -/
+theorem spherical_wrapper (I : Integ) (MC : MCInteg) (sph : Rat → Rat → Rat → Vec3) (acos : Rat → Rat)
     (name : String) (p : Int) (f : Vec3 → Rat) (r1 r2 c1 c2 phi1 phi2 : Rat) :
     integrate3Dsph I MC sph acos name p f r1 r2 c1 c2 phi1 phi2
       = integrate3D I MC name p (fun r c phi => r * r * f (sph r (acos c) phi)) r1 r2 c1 c2 phi1 phi2 := rfl
+
+/-- exactness on constants: `I (λ_. c) a b = c (b - a)` -/
+def ExactOnConstants (I : Integ) : Prop := ∀ m q (c a b : Rat), I m q (fun _ => c) a b = c * (b - a)
+
+theorem int1_const (I : Integ) (hC : ExactOnConstants I) (m : Method) (p : Int) (c a b : Rat) :
+    int1 I m p (fun _ => c) a b = c * (b - a) := by
+  unfold int1 checkLimits
+  by_cases h : a = b
+  · simp [h]
+  · by_cases h2 : a > b <;> simp [h, h2, hC m] <;> ring
+
+/-- **spherical_radial**: for a radial `f(v) = g(‖v‖)` (`nrm (sph r θ φ) = r`, proved for
+    `Spherical_Coordinates` in C16) and a rule that is homogeneous and exact on constants, the result
+    is `(φ2-φ1)(c2-c1)·∫ r² g(r) dr` — `4π ∫ r² g` on the full sphere `c ∈ [-1,1], φ ∈ [0,2π]`. -/
+theorem spherical_radial (I : Integ) (hI : Homogeneous I) (hC : ExactOnConstants I) (MC : MCInteg)
+    (sph : Rat → Rat → Rat → Vec3) (acos : Rat → Rat) (nrm : Vec3 → Rat) (hn : ∀ r th ph, nrm (sph r th ph) = r)
+    (name : String) (m : Method) (hm : parseMethod name = some m) (p : Int) (g : Rat → Rat)
+    (r1 r2 c1 c2 phi1 phi2 : Rat) :
+    integrate3Dsph I MC sph acos name p (fun v => g (nrm v)) r1 r2 c1 c2 phi1 phi2
+      = .ok ((phi2 - phi1) * (c2 - c1) * int1 I m p (fun r => r * r * g r) r1 r2) := by
+  rw [spherical_wrapper, nested_order_3D I MC name m hm]
+  congr 1
+  have e : (fun r => int1 I m p (fun c => int1 I m p (fun phi => r * r * g (nrm (sph r (acos c) phi))) phi1 phi2) c1 c2)
+      = fun r => ((phi2 - phi1) * (c2 - c1)) * (r * r * g r) := by
+    funext r
+    simp only [hn]
+    rw [int1_const I hC, int1_const I hC]; ring
+  rw [e, int1_homogeneous I hI]
+
+/-- the midpoint rule is homogeneous and exact on constants: the hypotheses are satisfiable -/
+example : ExactOnConstants (fun _ _ f a b => (b - a) * f ((a + b) / 2)) := by
+  intro m q c a b; ring
+
+/-! ## helpers of §1.1 -/
+
+theorem checkLimits_spec (a b : Rat) :
+    (a > b → checkLimits a b 1 = (b, a, -1)) ∧ (¬ a > b → checkLimits a b 1 = (a, b, 1)) := by
+  unfold checkLimits
+  constructor <;> intro h <;> simp [h]
+
+/-- `Find_Epsilon` is `precision` times Simpson's three-point estimate -/
+theorem findEpsilon_spec (f : Rat → Rat) (a b pr : Rat) :
+    findEpsilon f a b pr = pr * ((b - a) / 6 * (f a + 4 * f ((a + b) / 2) + f b)) := rfl
+
+/-- method-parameter defaults: 5 (`max_depth`) and 30 (`evaluation_points`) -/
+theorem effParam_defaults : effParam .gaussKronrod 0 = 5 ∧ effParam .gaussLegendre2 0 = 30 ∧
+    (∀ p, p ≠ 0 → effParam .gaussKronrod p = p ∧ effParam .gaussLegendre2 p = p) := by
+  refine ⟨rfl, rfl, ?_⟩
+  intro p hp; simp [effParam, hp]
 
 end Lp.C13
